@@ -22,7 +22,7 @@ META = {
             "text": "TLC explores every interleaving, cancellation point and delivery order of the port data path for small constants and checks "
                     "prefix/exactly-once/liveness; every recorded execution of the real code is checked by TLC against the same formulas at every step.",
             "note": _chmux_note},
-    "C02": {"technique": "TLA+ model (ChmuxData) + TLC trace validation of raw wire frames decoded by Wire.tla",
+    "C02": {"technique": "TLA+ model (ChmuxData) checked with TLC + credit conservation as an inductive invariant for every buffer size checked with Apalache (spec/apalache/Credit.tla) + TLC trace validation of raw wire frames decoded by Wire.tla",
             "text": "Credit bound, chunk bound and grant<=consumed are invariants of the exhaustive model and are re-evaluated by TLC at every prefix "
                     "of every recorded wire trace (frames decoded by the independent Wire!Dec).",
             "note": _chmux_note},
